@@ -66,6 +66,8 @@ def gen(seed):
                              'at': rng.randint(0, 200)})
         if not spec['opt'].get('j'):
             spec['opt']['j'] = rng.randint(2, 3)
+    if seed % 9 == 1:
+        _ws.add_binary_stdout_in_resumed_layers(spec, seed)
     if seed % 9 == 7 and world['layers']:
         # a transient read error on one child's stdout pipe (reported, retried): the child's
         # report still counts
